@@ -20,6 +20,9 @@ type c06Case struct {
 	want  string // expected text content with whitespace removed
 }
 
+// cases that use expression syntax outside the fragment the Lean stand-in for expr-lang covers (object literals): oracle only
+var c06NoModel = map[string]bool{"object-literal-prop/var": true, "object-literal-prop/destructured": true}
+
 const c06Comp = `<section><header><slot name="head"><em>FB-HEAD</em></slot></header><main><slot><em>FB-DEFAULT</em></slot></main></section>`
 
 func c06Cases() []c06Case {
@@ -265,7 +268,9 @@ func runC06(r *Run, replay *Case) {
 	r.Res.Rule = "components with default/named slots, fallback, scoped props (named variable, destructured, none), supplied in v-slot:, # and plain-children form with dynamic content; " +
 		"1-3 instances side by side, slot inside v-for, nested components, the same slot used twice; each case runs in an isolated child process; non-trivial = every case"
 	for _, cs := range c06Cases() {
-		if _, viaLayout := cs.files["layouts/main.vuego"]; !viaLayout {
+		if c06NoModel[cs.desc] {
+			// no correspondence case
+		} else if _, viaLayout := cs.files["layouts/main.vuego"]; !viaLayout {
 			r.Add(pageCase("slots:"+cs.desc, cs.files, nil, "p.vuego", cs.data))
 		} else {
 			r.Add(layoutPageCase("slots:"+cs.desc, cs.files, "p.vuego", cs.data))
